@@ -128,7 +128,9 @@ func (e *kvElection) checkKeyAndReelect(ctx context.Context) {
 	}
 
 	currentLeaderID := e.LeaderID()
-	if currentLeaderID != "" && currentLeaderID != newLeaderID {
+	// Also when no leader is known yet: a follower whose watch could not be
+	// set up learns the owner of the record from this check alone.
+	if currentLeaderID != newLeaderID {
 		log := e.getLogger()
 		log.Info("leader_changed_periodic_check",
 			append(e.logWithContext(ctx),
